@@ -1,6 +1,8 @@
 import ProcSim.Model.Sim
 import ProcSim.Model.Loader
 import ProcSim.Model.Program
+import ProcSim.Model.ICase
+import ProcSim.Model.Bag
 /-!
 Canonical, `decide`-friendly form of a simulation outcome over `Nat` names — used by the generated "kernel samples"
 (checks/kernel_samples.py): the harness takes inputs and the *implementation's* outputs, maps names to numbers
@@ -56,4 +58,37 @@ def parseResultEq : Except Program.ParseError (List Program.ProgInstr) → Excep
   | .ok a, .ok b => decide (a = b)
   | .error e, .error f => decide (e = f)
   | _, _ => false
+end ProcSim
+
+/-! ### kernel samples for the register queues (C19), `ICaseString` (C18) and cycle records (C17) -/
+namespace ProcSim
+
+/-- one call on a queue: `can_access(type, owner)` or `dequeue(owner)` -/
+inductive QOp
+  | can (w : Bool) (o : Nat)
+  | deq (o : Nat)
+
+/-- the observable trace of a history of calls: `can` -> 0 (False) / 1 (True) / 2 (exception);
+`deq` -> 1 (removed) / 0 (exception, queue unchanged) -/
+def qTrace : Queue → List QOp → List Nat
+  | _, [] => []
+  | q, .can w o :: r => (match q.canAccess w o with | none => 2 | some true => 1 | some false => 0) :: qTrace q r
+  | q, .deq o :: r => match q.dequeue o with
+    | none => 0 :: qTrace q r
+    | some q' => 1 :: qTrace q' r
+
+/-- the eleven hash-independent observations on `ICaseString(a)`, `ICaseString(b)`:
+`A==B, B==A, A!=B, A<B, B<A, A<=B, B<=A, A>B, A>=B, b in A, a in B` -/
+def icaseCanon (a b : List Char) : List Bool :=
+  let A : ICase.ICaseString := ⟨a⟩
+  let B : ICase.ICaseString := ⟨b⟩
+  [ICase.eq A B, ICase.eq B A, ICase.ne A B, ICase.lt A B, ICase.lt B A, ICase.le A B, ICase.le B A,
+   ICase.gt A B, ICase.ge A B, ICase.contains A b, ICase.contains B a]
+
+/-- `(a == b, b == a, len a, len b)` for two cycle records over numbered units and numbered entries -/
+def bagCanon (a b : List (Nat × List Nat)) : Bool × Bool × Nat × Nat :=
+  let x : Bag.BagValDict Nat Nat := Bag.ofPairs a
+  let y : Bag.BagValDict Nat Nat := Bag.ofPairs b
+  (Bag.beq (fun u v => decide (u ≤ v)) x y, Bag.beq (fun u v => decide (u ≤ v)) y x, Bag.len x, Bag.len y)
+
 end ProcSim
